@@ -153,7 +153,10 @@ struct Slot {
 struct VM {
   std::string name;
   int script = 0;
-  std::map<int, Slot> slots;
+  // The handles of the pending asynchronous activities live on the heap and survive the actor (they are never freed), unless the
+  // script says "scoped": then they are destroyed when the actor's stack is unwound, as the locals of a hand-written actor are.
+  std::map<int, Slot>& slots = *new std::map<int, Slot>;
+  bool scoped                = false;
   std::vector<sg4::ActorPtr> children;
   std::map<int, int> held; // mutex index -> 1 while this actor owns it
   long nsent = 0;
@@ -220,7 +223,7 @@ static std::string completed(Slot& s)
   return r;
 }
 
-static void body(VM vm);
+static void body(const std::string& name, int script);
 
 static void run_op(VM& vm, size_t i, const Op& op)
 {
@@ -238,7 +241,10 @@ static void run_op(VM& vm, size_t i, const Op& op)
   };
   auto free_slot = [&](int s) { return live_slot(s) == nullptr; };
 
-  if (n == "sleep") {
+  if (n == "scoped") {
+    vm.scoped = true;
+    R("");
+  } else if (n == "sleep") {
     Q();
     sg4::this_actor::sleep_for(op.num(0) * UNIT);
     R("");
@@ -494,17 +500,16 @@ static void run_op(VM& vm, size_t i, const Op& op)
     R(" " + std::to_string(r));
   } else if (n == "create") { // create <script> <host> <daemon>
     Q();
-    VM child;
-    child.name        = vm.name + "." + std::to_string(vm.children.size());
-    child.script      = op.idx(0);
+    std::string cname = vm.name + "." + std::to_string(vm.children.size());
+    int cscript       = op.idx(0);
     int daemon        = op.idx(2);
-    sg4::ActorPtr c   = W->hosts.at(op.idx(1))->add_actor(child.name, [child, daemon]() {
+    sg4::ActorPtr c   = W->hosts.at(op.idx(1))->add_actor(cname, [cname, cscript, daemon]() {
       if (daemon)
         sg4::Actor::self()->daemonize();
-      body(child);
+      body(cname, cscript);
     });
     vm.children.push_back(c);
-    R(" " + child.name + " pid=" + std::to_string(c->get_pid()));
+    R(" " + cname + " pid=" + std::to_string(c->get_pid()));
   } else if (n == "kill" || n == "join" || n == "suspend" || n == "resume") {
     sg4::ActorPtr t = target(vm, op.a.at(0));
     if (t == nullptr || t.get() == sg4::Actor::self())
@@ -539,8 +544,21 @@ static void run_op(VM& vm, size_t i, const Op& op)
   }
 }
 
-static void body(VM vm)
+struct ScopeGuard {
+  VM& vm;
+  ~ScopeGuard()
+  {
+    if (vm.scoped)
+      delete &vm.slots;
+  }
+};
+
+static void body(const std::string& name0, int script)
 {
+  VM vm;
+  vm.name   = name0;
+  vm.script = script;
+  ScopeGuard guard{vm};
   const char* me = vm.name.c_str();
   std::string name = vm.name;
   sg4::this_actor::on_exit([name](bool failed) { out("%.17g %s -1 E %d", now(), name.c_str(), failed ? 1 : 0); });
@@ -683,10 +701,9 @@ static int run_case(std::vector<std::string> args, unsigned long long padseed, c
 
   for (auto const& s : world.specs) {
     pad_step(8);
-    VM vm;
-    vm.name         = s.name;
-    vm.script       = s.script;
-    sg4::ActorPtr a = world.hosts.at(s.host)->add_actor(s.name, [vm]() { body(vm); });
+    std::string aname = s.name;
+    int ascript       = s.script;
+    sg4::ActorPtr a   = world.hosts.at(s.host)->add_actor(s.name, [aname, ascript]() { body(aname, ascript); });
     if (s.daemon)
       a->daemonize();
     if (s.killtime >= 0)
